@@ -244,8 +244,18 @@ pub fn image_probe(maxw: i32, maxh: i32) -> BoxedStrategy<ImageSpec> {
 pub fn strategy() -> BoxedStrategy<Case> {
     // images are mostly up to 8x8; one in forty is 257..300 texels long or tall (wrap-around and clamping beyond 256)
     let big = prop_oneof![(257i32..=300, 1i32..=2), (1i32..=2, 257i32..=300)].prop_flat_map(|(w, h)| prop::collection::vec(px_premul(), (w * h) as usize).prop_map(move |data| ImageSpec { w, h, data }));
-    (2i32..=16, 2i32..=16, prop_oneof![39 => image_probe(8, 8), 1 => big.boxed()], any::<bool>(), any::<bool>(), prop_oneof![2 => Just(1.0f32), 1 => Just(0.5f32), 1 => 0.0f32..=1.0], small_xf(), small_xf(), (0i32..=310, 0i32..=310))
-        .prop_map(|(w, h, img, repeat, nearest, alpha, ctm, mut sxf, (bx, by))| {
+    (2i32..=16, 2i32..=16, prop_oneof![39 => image_probe(8, 8), 1 => big.boxed()], any::<bool>(), any::<bool>(), prop_oneof![2 => Just(1.0f32), 1 => Just(0.5f32), 1 => 0.0f32..=1.0], small_xf(), small_xf(), (0i32..=310, 0i32..=310), prop_oneof![14 => Just(1.0f32), 1 => Just(4096.0f32), 1 => Just(65536.0f32), 1 => Just(1.0f32 / 64.0)])
+        .prop_map(|(w, h, img, repeat, nearest, alpha, mut ctm, mut sxf, (bx, by), zoom)| {
+            // zoom: user units `zoom` times smaller; both the CTM (user to device) and the image's transform (user to
+            // image) grow by the same factor, device-to-image space is the same map (powers of two: exact)
+            if zoom != 1.0 {
+                for v in ctm.iter_mut().take(4) {
+                    *v *= zoom;
+                }
+                for v in sxf.iter_mut().take(4) {
+                    *v *= zoom;
+                }
+            }
             // a long image is looked at anywhere along its length (and just beyond its far end)
             if img.w > 256 {
                 sxf[4] += bx as f32;
@@ -361,7 +371,7 @@ fn draw_strategy() -> BoxedStrategy<DrawCase> {
 pub fn property(_ctx: &Ctx) -> Property {
     Property {
         id: "C13",
-        rule: "part sample: images 1..8 x 1..8 (one in forty 257..300 texels long or tall) of random premultiplied texels (plus position-coded images), Pad/Repeat, Nearest/Bilinear, alpha in {1,0.5,uniform}, CTM and source transform each from {identity, integer translation (negative, beyond the image), fractional translation, half/quarter-pixel translation, scale 0.2-3, rotation x scale, integer scales 2/3/5/-1, lattice matrices (entries 0/1/-1/arbitrary) and unit-diagonal shears with whole-number translations}, surfaces 2..16 px, rendered with a full-surface Src fill. Oracle: f64 texel addressing M(pixel centre) (inverse CTM then source transform): nearest = texel(floor) with clamp / euclidean wrap, either neighbour accepted within the 16.16 epsilon (no allowance when both matrices are translations by multiples of 1/256, where every step is exact; half- and quarter-pixel translations are generated so that samples fall exactly on texel boundaries); bilinear within [min-2,max+2] of the four texels around (u-0.5,v-0.5), the exact texel at exactly representable texel centres; integer translations exact for both filters; alpha scaling within 1/255 (exact at alpha 1). part draw: draw_image_at at integer (exact texel placement) and fractional positions and draw_image_with_size_at with random sizes; pixels wholly outside the rectangle untouched, inside by the bilinear rule. Non-trivial: image >= 2x2 with >= 2 distinct texels and (some sample outside the image or a non-integer-translation matrix); distinct by hash of the case.",
+        rule: "part sample: images 1..8 x 1..8 (one in forty 257..300 texels long or tall) of random premultiplied texels (plus position-coded images), Pad/Repeat, Nearest/Bilinear, alpha in {1,0.5,uniform}, CTM and source transform each from {identity, integer translation (negative, beyond the image), fractional translation, half/quarter-pixel translation, scale 0.2-3, rotation x scale, integer scales 2/3/5/-1, lattice matrices (entries 0/1/-1/arbitrary) and unit-diagonal shears with whole-number translations}, optionally with user space zoomed (both matrices times 4096, 65536 or 1/64), surfaces 2..16 px, rendered with a full-surface Src fill. Oracle: f64 texel addressing M(pixel centre) (inverse CTM then source transform): nearest = texel(floor) with clamp / euclidean wrap, either neighbour accepted within the 16.16 epsilon (no allowance when both matrices are translations by multiples of 1/256, where every step is exact; half- and quarter-pixel translations are generated so that samples fall exactly on texel boundaries); bilinear within [min-2,max+2] of the four texels around (u-0.5,v-0.5), the exact texel at exactly representable texel centres; integer translations exact for both filters; alpha scaling within 1/255 (exact at alpha 1). part draw: draw_image_at at integer (exact texel placement) and fractional positions and draw_image_with_size_at with random sizes; pixels wholly outside the rectangle untouched, inside by the bilinear rule. Non-trivial: image >= 2x2 with >= 2 distinct texels and (some sample outside the image or a non-integer-translation matrix); distinct by hash of the case.",
         assumptions: vec!["sampling epsilon (px+py+2)/65536 + 1e-4 (+4e-6 x coordinate scale) for the 16.16 matrix and the f32 inverse", "pixels straddling the rectangle edge of draw_image_* are not judged"],
         parts: vec![part("sample", 100_000, 2_000_000, strategy, check), part("draw", 40_000, 600_000, draw_strategy, check_draw)],
         min_class_fraction: vec![
